@@ -68,6 +68,11 @@ func runC03(t *testing.T, seed uint64, planJSON []byte, tier string) (res *Resul
 		if g.Prob(0.5) {
 			o.WhereForms = pickSome(g, []string{"in", "between", "or", "pk", "paren"}, 2)
 		}
+		if g.Prob(0.2) {
+			// rows reached through a secondary unique index: upserts on tables with a
+			// generated key the statement need not name
+			o.PKKinds, o.UniqueIndex, o.Upsert = []string{"auto"}, true, true
+		}
 	}
 	defer func() { atPlanTweak = nil }()
 	return runATGeneric(t, "C03", "mixed", seed, planJSON, tier)
